@@ -109,11 +109,11 @@ def asbuilt_witnesses(prop, tier, wd, devs_open):
         for model, retries in [("os2_cap1", 1), ("os2_cap2", 1), ("os2_max1", 1)]:
             cfg = os.path.join(wd, "mcdev_%s_%s.cfg" % (dev, model))
             c = constants(model, retries, dev_defs([dev]),
-                          {"MaxUpd": 3, "MaxSteps": 7 if tier == "quick" else 8, "Classes": ("<-", "Cl123"),
+                          {"MaxUpd": 3, "MaxSteps": 7, "Classes": ("<-", "Cl123"),
                            "MonName": '"%s"' % prop, "Alpha": '"%s"' % ALPHAS[prop][0]})
             vlib.write_cfg(cfg, "Spec", c, ["NoViolation", "NoPanic"], view="View")
             try:
-                r = vlib.model_check("MC_O_events.tla", cfg, workers=12, timeout=150 if tier == "quick" else 1200)
+                r = vlib.model_check("MC_O_events.tla", cfg, workers=12, timeout=150 if tier == "quick" else 400)
             except ToolError as e:
                 if "timeout" in str(e):
                     runs.append({"dev": [dev], "model": model, "timeout": True})
